@@ -109,6 +109,20 @@ def project(net, with_results=True, num=None):
                  "cj": int(row["controlled_junction"]) if tbl == "press_control" else 0,
                  "typ": str(row["type"]) if tbl in ("circ_pump_mass", "circ_pump_pressure") else "",
                  "sec": int(row["sections"]) if tbl == "pipe" else 1}
+            # prescribed values (set-points) of the row, as ticks
+            r["set1"], r["set2"] = NAN, NAN
+            if tbl == "flow_control":
+                r["set1"] = limbs(row["controlled_mdot_kg_per_s"], MSCALE)
+            elif tbl == "press_control":
+                r["set1"] = limbs(row["controlled_p_bar"], PSCALE)
+            elif tbl == "circ_pump_mass":
+                r["set1"] = limbs(row["mdot_flow_kg_per_s"], MSCALE)
+                r["set2"] = limbs(row["p_flow_bar"], PSCALE)
+            elif tbl == "circ_pump_pressure":
+                r["set1"] = limbs(row["plift_bar"], PSCALE)
+                r["set2"] = limbs(row["p_flow_bar"], PSCALE)
+            elif tbl == "compressor":
+                r["set1"] = limbs(row["pressure_ratio"], 1e6)
             if ok_res:
                 rr = rt.iloc[pos]
                 hyd = [float(rr[c]) for c in HYD_COLS_BASE if c in rt.columns]
